@@ -234,3 +234,44 @@ def check_identity_forms(rep, cfg, prop):
                     why = "affine (%#x.., %#x..) vs decode(8)" % (x >> 200, y >> 200)
             rep.ob(key, ok and not out.unmodelled, "%s::%s must return the generator constant decode(8): %s" % (tr, name, why), where=cfg.where(path))
     return n
+
+
+# hooks of the arkworks curve-config traits: arkworks' generic Projective / Affine code calls them on every operation of the inner point, so an
+# override in the crate is crate code on the path of every group operation that C04-C06 otherwise attribute to trusted arkworks code.
+CONFIG_HOOKS = {
+    # (trait, method) -> (owning properties, how it is covered)
+    ("ark_ec::twisted_edwards::TECurveConfig", "mul_by_a"): (("C04",), "checked: must denote a * elem with a = COEFF_A (rule FWD/mul_by_a of C04)"),
+    ("ark_ec::twisted_edwards::TECurveConfig", "is_in_correct_subgroup_assuming_on_curve"):
+        (("C06",), "constant `true` by design: validity of decaf377 elements is established by decoding (PROV), never by this predicate - so no "
+                   "construction site may rely on arkworks' `Valid::check` / checked deserialisation of the inner point (PROV treats those as raw)"),
+}
+HOOK_OWNERS = {"mul_affine": ("C05",), "mul_projective": ("C05",), "msm": ("C05",), "clear_cofactor": ("C04", "C06"), "mul_by_a": ("C04",),
+               "is_in_correct_subgroup_assuming_on_curve": ("C06",), "serialize_with_mode": ("C03",), "deserialize_with_mode": ("C02", "C06"),
+               "serialized_size": ("C03",), "cofactor_is_one": ("C05", "C06")}
+
+
+def config_hooks(rep, cfg, pid):
+    """every method the crate's curve configuration overrides must be one the rules account for"""
+    n = 0
+    for im in cfg.facts["impls"]:
+        st = im.get("self", "")
+        td = im.get("trait_def", "")
+        if not st.endswith("Decaf377EdwardsConfig") or not td.startswith("ark_ec::"):
+            continue
+        for it in im["items"]:
+            if it["kind"] != "Fn":
+                continue
+            owners, how = CONFIG_HOOKS.get((td, it["name"]), (None, None))
+            if owners is None:
+                owners = HOOK_OWNERS.get(it["name"], ("C04", "C05", "C06"))
+                if pid not in owners:
+                    continue
+                n += 1
+                rep.ob("HOOK/%s/%s::%s" % (cfg.name, td.split("::")[-1], it["name"]), False,
+                       "the curve configuration overrides arkworks' `%s` hook, which arkworks' generic point code calls on the path of the group operations "
+                       "this property is about; no rule of this check analyses an override of it (the operations were attributed to trusted arkworks "
+                       "code) - verify it by hand and table it with a reason, or drop the override" % it["name"], where=im.get("sp"), nontrivial=False)
+            elif pid in owners:
+                n += 1
+                rep.ob("HOOK/%s/%s::%s" % (cfg.name, td.split("::")[-1], it["name"]), True, how, nontrivial=False)
+    return n
